@@ -253,6 +253,10 @@ def run_wc(ctx, prop, mc_cfgs, neg_cfgs, gen_cfgs, n_random, focus, script_len=1
     ctx.cov["evaluations"] += sum(len(r.get("steps", [])) for r in recs)
     ctx.cov["divergence_from_reference"] += len(j["diverges"])
     ctx.cov["s2i_behaviours"] = n_s2i
+    # generated scripts cut short because the real disk did not admit a model edit (the
+    # implementation left the disk in another state than the reference: a violation or a
+    # divergence has been flagged at the jj step before)
+    ctx.cov["s2i_truncated"] = sum(1 for r in recs if r.get("truncated"))
     ctx.cov["i2s_scripts"] = n_i2s
     nt = NONTRIVIAL[prop]
     ctx.cov["distinct_nontrivial"] += len({json.dumps(r, sort_keys=True) for r in recs if nt(r)})
